@@ -260,6 +260,8 @@ def _design(rng, n_mod):
         if rng.random() < 0.5:
             e.append(rng.choice([2, 0.5, 8, 50]))
         nets.append(e)
+    if rng.random() < 0.4:      # a bus: the same net several times (equal wire lengths; added after seed C13-7, which summed a SET of lengths)
+        nets += [list(nets[0]) for _ in range(rng.randint(1, 3))]
     return W, H, {"Modules": mods, "Nets": nets}
 
 
@@ -268,7 +270,7 @@ def _design(rng, n_mod):
 def float_leg(chunk, replay=None):
     import math
     from frame.die.die import Die
-    from json import dumps as write_yaml        # input documents are written WITHOUT the library (JSON is a subset of YAML): the harness must not depend on the code under test
+    write_yaml = lambda d: __import__("json").dumps(d, indent=1)  # noqa: E731  input documents are written WITHOUT the library (JSON is a subset of YAML): the harness must not depend on the code under test
     tier = os.environ.get("VERIF_TIER", "quick")
     rng = random.Random(777 + chunk + 100 * int(os.environ.get("VERIF_SEED", "0") or 0))
     n_des = 25 if tier != "thorough" else 400
